@@ -304,9 +304,12 @@ def c01_oracle(m, req, resp, before, after):
             fail('over-committed-without-inventory-change',
                  {'pair': k, 'used': ua.get(k),
                   'inventory': after.inventories.get(k)})
-    # while over-committed usage never grows
+    # while over-committed usage never grows.  A reshape changes inventory
+    # and allocations atomically, so "while" means: over-committed before the
+    # request and still over-committed (against the new inventory) after it.
+    still = over_committed(after)
     for k in over_committed(before):
-        if ua.get(k, 0) > ub.get(k, 0):
+        if k in still and ua.get(k, 0) > ub.get(k, 0):
             fail('usage-grew-while-over-committed',
                  {'pair': k, 'before': ub.get(k, 0), 'after': ua.get(k)})
 
